@@ -59,27 +59,27 @@ type Shared struct {
 	stop   bool
 
 	Paths, Infeasible, Unsupported, Aborted, Inconclusive int
-	Decisions                                              int
-	Steps                                                  int64
-	MaxSteps                                               int
-	UnsupportedReasons                                     map[string]int
-	InconclusiveReasons                                    map[string]int
-	Violations                                             []*Violation
-	violIdx                                                map[string]*Violation
-	Leaks                                                  int
-	Witnesses                                              []Witness
-	witnessCap                                             int
-	witnessEvery                                           int
-	Funcs                                                  map[string]bool
-	Completed                                              map[string]int
-	Stubs                                                  map[string]bool
-	MapSites                                               map[string]int
-	Queries                                                int
-	SolverTime                                             time.Duration
-	domDecided                                             atomic.Int64
-	maxPaths                                               int
-	deadline                                               time.Time
-	TimedOut                                               bool
+	Decisions                                             int
+	Steps                                                 int64
+	MaxSteps                                              int
+	UnsupportedReasons                                    map[string]int
+	InconclusiveReasons                                   map[string]int
+	Violations                                            []*Violation
+	violIdx                                               map[string]*Violation
+	Leaks                                                 int
+	Witnesses                                             []Witness
+	witnessCap                                            int
+	witnessEvery                                          int
+	Funcs                                                 map[string]bool
+	Completed                                             map[string]int
+	Stubs                                                 map[string]bool
+	MapSites                                              map[string]int
+	Queries                                               int
+	SolverTime                                            time.Duration
+	domDecided                                            atomic.Int64
+	maxPaths                                              int
+	deadline                                              time.Time
+	TimedOut                                              bool
 }
 
 func newShared() *Shared {
@@ -517,7 +517,6 @@ func (sh *Shared) reasons(m map[string]int) []string {
 	sort.Strings(r)
 	return r
 }
-
 
 func (sh *Shared) stubList() []string {
 	var r []string
